@@ -224,7 +224,7 @@ func init() {
 			{Name: "concurrent-race", Race: true, Cases: cases(4, 40), Run: c14ConcurrentRun, Procs: func(string) int { return 4 }},
 		},
 		Floors: func(string) map[string]int64 {
-			return map[string]int64{"pool_probe_found_used_state": 100, "builds_equal_to_cold_reference": 2000, "concurrent_builds_equal_to_cold_reference": 1000, "failed_builds_in_history": 50}
+			return map[string]int64{"pool_probe_found_used_state": 20, "builds_equal_to_cold_reference": 1000, "concurrent_builds_equal_to_cold_reference": 1000, "failed_builds_in_history": 50}
 		},
 	})
 }
